@@ -3,14 +3,14 @@ import operator
 import valida.datapath
 
 
-def set_datum(data, data_path, datum):
+def set_datum(data, concrete_path, datum):
+    """Set `datum` within the nested `data` at `concrete_path`, a sequence of map keys and
+    list indices as returned by `DataPath.get_data(..., return_paths=True)`."""
 
-    for part in data_path.parts[:-1]:
-        idx = part.condition.callable.kwargs["value"]
-        data = data[idx]
+    for key in concrete_path[:-1]:
+        data = data[key]
 
-    idx = data_path.parts[-1].condition.callable.kwargs["value"]
-    data[idx] = datum
+    data[concrete_path[-1]] = datum
 
 
 class Data:
@@ -145,7 +145,7 @@ class Data:
             raise TypeError("Cannot set data at non-concrete path.")
 
         data = self.get_original()
-        set_datum(data, path, datum)
+        set_datum(data, path.simplify(), datum)
         return Data(data)
 
 
